@@ -11,6 +11,7 @@ import SkimModel.Driver.C20
 import SkimModel.Driver.C06
 import SkimModel.Driver.C07
 import SkimModel.Driver.C17
+import SkimModel.Driver.C11
 import SkimModel.Driver.C15
 import SkimModel.Driver.C16
 import SkimModel.Driver.C18
@@ -60,6 +61,7 @@ def answer (line : String) : String :=
       | .ok (m, v) => m ++ "\t" ++ v
       | .error e => "error:" ++ e ++ "\terror"
     | "C20" =>
+      if case.startsWith "E~" then C20.endState case impl else
       match C20.handle case impl with
       | .ok (m, v) => m ++ "\t" ++ v
       | .error e => "error:" ++ e ++ "\terror"
@@ -75,6 +77,7 @@ def answer (line : String) : String :=
       match C17.handle case impl with
       | .ok (m, v) => m ++ "\t" ++ v
       | .error e => "error:" ++ e ++ "\terror"
+    | "C11" => C11.answer case impl
     | "C15" => C15.answer case impl
     | _ => "error:unknown-property\terror"
   | _ => "error:bad-line\terror"
